@@ -15,6 +15,7 @@ Step(cur, e, i) ==
   ELSE IF cur.skip THEN cur
   ELSE LET r == EvalChunk(cur.st, e.ast) IN
        IF Skip(r.exc) THEN [st |-> cur.st, skip |-> PrintT(<<"BAD", i, "oom", r.exc.why>>)]
+       ELSE IF \E q \in 1..Len(r.out) : Opaque(r.out[q]) THEN [st |-> cur.st, skip |-> PrintT(<<"BAD", i, "oom", "opaque value in the output">>)]
        ELSE IF SeqMatches(r.out, e.out) /\ CauseMatches(r.exc, e.exc) THEN [st |-> r.st, skip |-> FALSE]
        ELSE [st |-> r.st,
              skip |-> PrintT(<<"BAD", i, "mismatch",
